@@ -180,7 +180,7 @@ where
 }
 
 /// exact preimage counts of one range under sampler k over ALL first words of the type (BITS <= 24)
-fn uniformity<T>(config: &str, k: usize, low: T, high: T, map: &WordMap, l: &mut Local)
+fn uniformity<T>(config: &str, k: usize, low: T, high: T, _map: &WordMap, l: &mut Local)
 where
     T: Subj + SampleUniform + PartialOrd,
 {
@@ -196,22 +196,21 @@ where
     }
     let mut word = vec![0u8; nb];
     let mut accepted = 0u64;
+    // "accepted first word" = a draw that consumes the least number of stream bytes seen for this range
+    let mut wmin = usize::MAX;
     for w in 0..(1u64 << bits) {
         word.copy_from_slice(&w.to_le_bytes()[..nb]);
-        let mapped;
-        let script: &[u8] = if map.identity {
-            &word
-        } else {
-            mapped = map.script(&[&word]);
-            &mapped
-        };
-        let mut rng = Script::new(script);
+        let mut rng = Script::new(&word);
         let v = match draw(k, low, high, hp, &mut rng) {
             Some(v) => v,
             None => return,
         };
-        if rng.pos == map.len {
-            // accepted on the first word
+        if rng.pos < wmin {
+            wmin = rng.pos;
+            counts.iter_mut().for_each(|c| *c = 0);
+            accepted = 0;
+        }
+        if rng.pos == wmin {
             accepted += 1;
             let vi = v.z::<i128>() - lowi;
             if vi < 0 || vi as usize >= size {
@@ -220,6 +219,10 @@ where
             }
             counts[vi as usize] += 1;
         }
+    }
+    if wmin > nb {
+        // one attempt consumes more bytes than were enumerated: the word space was not covered
+        return;
     }
     let first = counts[0];
     let uniform = first >= 1 && counts.iter().all(|c| *c == first);
@@ -379,15 +382,11 @@ where
             l.enter(cfg, SAMPLERS[k], || vec![Subj::hex(&low), Subj::hex(&high), crate::strings::bhex(w0)], k as u64);
         }
         let mut broke = false;
+        // "accepted first word" = a draw consuming the least number of stream bytes seen for this range and
+        // sampler (one attempt); the words are raw scripts of BYTES bytes
+        let mut wmin = usize::MAX;
         for w in words {
-            let mapped;
-            let script: &[u8] = if map.identity {
-                w
-            } else {
-                mapped = map.script(&[w]);
-                &mapped
-            };
-            let mut rng = Script::new(script);
+            let mut rng = Script::new(w);
             let r = std::panic::catch_unwind(std::panic::AssertUnwindSafe(|| draw(k, low, high, hp, &mut rng)));
             let st = || vec![Subj::hex(&low), Subj::hex(&high), crate::strings::bhex(w)];
             let v = match r {
@@ -408,18 +407,23 @@ where
                 broke = true;
                 continue;
             }
-            if rng.pos == map.len {
-                if all_words {
+            if all_words {
+                if rng.pos < wmin {
+                    wmin = rng.pos;
+                    counts.iter_mut().for_each(|c| *c = 0);
+                }
+                if rng.pos == wmin {
                     counts[zv.zsub(&zl).to_i128_opt().unwrap() as usize] += 1;
                 }
-            } else if explore_rejections {
+            }
+            if rng.pos > map.len && explore_rejections {
                 // one deviation from the default "first word accepted": every second word
                 for w2 in 0..=255u8 {
-                    member_check(cfg, k, low, high, &map.script(&[&w[..], &[w2]]), l);
+                    member_check(cfg, k, low, high, &[w[0], w2], l);
                 }
             }
         }
-        if all_words && !broke {
+        if all_words && !broke && wmin <= T::bytes() {
             let first = counts[0];
             let uniform = first >= 1 && counts.iter().all(|c| *c == first);
             let text = "every value of the range has the same number (>= 1) of accepted first words";
